@@ -159,6 +159,9 @@ func cmdCheck(id string, args []string) int {
 		opts.TimeoutMs = 300000
 	}
 	opts.MaxPaths = *maxPaths
+	if v, err := strconv.ParseInt(os.Getenv("GOSYM_MAXINSTR"), 10, 64); err == nil && v > 0 {
+		opts.MaxInstrs = v
+	}
 	eng, err := loadEngine(pkgs, opts)
 	if err != nil {
 		fmt.Fprintln(os.Stderr, "INCONCLUSIVE: cannot load /repo:", err)
